@@ -9,6 +9,7 @@ import (
 	"github.com/zishang520/engine.io-go-parser/packet"
 	"github.com/zishang520/engine.io/v2/log"
 	"github.com/zishang520/engine.io/v2/types"
+	"github.com/zishang520/engine.io/v2/verifhook"
 	"github.com/zishang520/engine.io/v2/webtransport"
 )
 
@@ -122,6 +123,7 @@ func (w *webTransport) Send(packets []*packet.Packet) {
 	go w.send(packets)
 }
 func (w *webTransport) send(packets []*packet.Packet) {
+	verifhook.At("wt.send.enter", w.Sid())
 	defer func() {
 		w.Emit("drain")
 		w.SetWritable(true)
